@@ -86,7 +86,8 @@ impl crate::storage::Storable for ValueState {
     }
 
     fn key_from_full_binary(bin: &[u8]) -> Result<ValueStateKey, String> {
-        if bin.len() < 10 {
+        // 1 byte of storage type + 8 bytes of epoch, followed by the (possibly empty) username
+        if bin.len() < 9 {
             return Err("Not enough bytes to form a proper key".to_string());
         }
 
